@@ -1263,6 +1263,36 @@ class _AttrConstInline(ast.NodeTransformer):
 
     visit_GeneratorExp = visit_ListComp
 
+    def visit_For(self, node):
+        # for m in _Enum: ... m.name ... m.value ...
+        from . import staticeval as se
+        if isinstance(node.iter, ast.Name) and isinstance(
+                self.env.get(node.iter.id), se._Enum) and isinstance(
+                node.target, ast.Name):
+            m = node.target.id
+            en = self.env[node.iter.id]
+            uses = [n for n in ast.walk(node) if isinstance(n, ast.Name)
+                    and n.id == m and n is not node.target]
+            attr_uses = [n for n in ast.walk(node) if isinstance(
+                n, ast.Attribute) and isinstance(n.value, ast.Name)
+                and n.value.id == m and n.attr in ("name", "value")]
+            if uses and len(uses) == len(attr_uses):
+                for a in attr_uses:
+                    _replace_node(node, a, ast.Name(
+                        id=f"{m}__{a.attr}", ctx=ast.Load()))
+                node.target = ast.copy_location(ast.Tuple(elts=[
+                    ast.Name(id=f"{m}__name", ctx=ast.Store()),
+                    ast.Name(id=f"{m}__value", ctx=ast.Store())],
+                    ctx=ast.Store()), node.target)
+                node.iter = ast.copy_location(ast.List(elts=[
+                    ast.Tuple(elts=[se._literal(x.name),
+                                    se._literal(x.value)], ctx=ast.Load())
+                    for x in en.members.values()], ctx=ast.Load()),
+                    node.iter)
+                ast.fix_missing_locations(node)
+        self.generic_visit(node)
+        return node
+
     def visit_Call(self, node):
         if isinstance(node.func, ast.Attribute) and isinstance(
                 node.func.value, ast.Name) and node.func.value.id in \
@@ -2085,7 +2115,7 @@ def normalize_module(tree: ast.Module, extern=None) -> ast.Module:
     ast.fix_missing_locations(tree)
     from . import staticeval
     attr_consts = staticeval.fold_module_tables(tree)
-    if attr_consts:
+    if attr_consts or getattr(tree, "_static_env", None):
         tree = _AttrConstInline(attr_consts, getattr(
             tree, "_static_env", None)).visit(tree)
         ast.fix_missing_locations(tree)
@@ -2114,6 +2144,9 @@ def normalize_module(tree: ast.Module, extern=None) -> ast.Module:
             n2.flag_finally(n)
             n2.exitstack_rollback(n)
             n2.sink_selected_calls(n)
+            n2.specialise_strategies(n)
+            n2.inline_pure_flags(n)
+            n2.first_match_loops(n)
             n2.local_sorts(n)
     for _round in range(2):
         before = ast.dump(tree) if _round else None
